@@ -43,6 +43,9 @@ type C11Case struct {
 	// ParkSend (caller-cancel, bidi): when the caller cancels, one of its own SendMsg calls is parked inside the
 	// transport write (a second goroutine of the caller, as the API permits)
 	ParkSend bool `json:"park_send,omitempty"`
+	// Queued (caller-cancel, bidi): the caller has sent one message which its handler never reads; it sits in the
+	// server's per-stream queue (one message fits without holding up the connection) when the cancellation arrives
+	Queued bool `json:"queued,omitempty"`
 	// CloseFirst (handler-early): the caller half-closes right after its last message, while the handler is still busy
 	// (so the half-close reaches the server behind the unread messages, before the handler returns) instead of after
 	CloseFirst bool `json:"close_first,omitempty"`
@@ -68,6 +71,7 @@ func genC11(t *rapid.T) C11Case {
 		c.SendFail = c.Kind == kit.KindBidi && rapid.IntRange(0, 2).Draw(t, "send_fail") == 0
 		c.Early = rapid.IntRange(0, 2).Draw(t, "early") == 0
 		c.ParkSend = c.Kind == kit.KindBidi && !c.SendFail && rapid.IntRange(0, 2).Draw(t, "park_send") == 0
+		c.Queued = c.Kind == kit.KindBidi && rapid.Bool().Draw(t, "queued")
 	case "failed-open":
 		// the write of the opening envelope reaches the server but is reported as failed to the caller, which therefore
 		// never serves the stream; the handler answers with Extra messages and returns
@@ -280,6 +284,9 @@ func execC11(t *testing.T, c C11Case) (v Verdict) {
 				if c.Early {
 					_, _ = cs.Header()
 					_ = cs.Trailer()
+				}
+				if c.Queued {
+					_ = kit.SendBytes(cs, []byte("never read by the handler"))
 				}
 				kit.Settle() // responses are now stacked up in the client (offered, buffered, parked in dispatch)
 				// No settle between starting the bystanders and the cancel: while the
@@ -539,7 +546,7 @@ func execC11(t *testing.T, c C11Case) (v Verdict) {
 		nt = nt || c.N-c.K >= 2
 	}
 	if c.Mode == "caller-cancel" {
-		labels = append(labels, fmt.Sprintf("unread_responses=%d", c.M), fmt.Sprintf("send_fail=%v", c.SendFail), fmt.Sprintf("early_trailer=%v", c.Early), fmt.Sprintf("park_send=%v", c.ParkSend))
+		labels = append(labels, fmt.Sprintf("unread_responses=%d", c.M), fmt.Sprintf("send_fail=%v", c.SendFail), fmt.Sprintf("early_trailer=%v", c.Early), fmt.Sprintf("park_send=%v", c.ParkSend), fmt.Sprintf("queued_request=%v", c.Queued))
 		nt = nt || c.M >= 3
 	}
 	if c.Extra > 0 {
